@@ -369,14 +369,31 @@ Definition extract_real (l : list Z) : ext dec :=
   let f := scan_float l in
   if fscan_ok f && negb (dec_overflows (fscan_dec f)) then ExtOk (fscan_dec f) (fs_rest f) else ExtFail.
 
-(* `is >> x` for an int (num_get::_M_extract_int, base 10): optional sign, digits; failbit on overflow *)
-Definition extract_int (l : list Z) : ext Z :=
+(* `is >> x` for an integer type with range [lo, hi] (num_get::_M_extract_int, base 10): optional sign, digits;
+   failbit when the value is out of range *)
+Definition extract_intr (lo hi : Z) (l : list Z) : ext Z :=
   let '(neg, l1) := take_sign l in
   let '(ds, rest) := span_digits l1 in
   match ds with
   | [] => ExtFail
   | _ => let v := if neg then - digits_val ds 0 else digits_val ds 0 in
-         if (-2147483648 <=? v) && (v <=? 2147483647) then ExtOk v rest else ExtFail
+         if (lo <=? v) && (v <=? hi) then ExtOk v rest else ExtFail
+  end.
+
+Definition extract_int : list Z -> ext Z := extract_intr (-2147483648) 2147483647.            (* int *)
+Definition extract_long : list Z -> ext Z := extract_intr (-9223372036854775808) 9223372036854775807.   (* long, step_number *)
+(* size_t after the repair: a '-' anywhere in the value text is refused before the extraction (get_keyval below) *)
+Definition extract_size : list Z -> ext Z := extract_intr 0 18446744073709551615.
+
+(* size_t as pinned: the library negates modulo 2^64 ("-5" is read as 18446744073709551611) *)
+Definition extract_size_pinned (l : list Z) : ext Z :=
+  let '(neg, l1) := take_sign l in
+  let '(ds, rest) := span_digits l1 in
+  match ds with
+  | [] => ExtFail
+  | _ => let n := digits_val ds 0 in
+         if n <=? 18446744073709551615 then ExtOk (if neg then (18446744073709551616 - n) mod 18446744073709551616 else n) rest
+         else ExtFail
   end.
 
 Fixpoint span_nonspace (l : list Z) : list Z * list Z :=
@@ -568,6 +585,7 @@ Definition check_keywords (allowed : list (list Z)) (conf : list Z) (rs : list k
 (* ---------------------------------------------------------------- a generic client: flat schema *)
 
 Inductive kind := KReal | KInt | KBool | KString | KRealVec | KRealVecN (n : nat) | KBlock
+| KSize | KLong | KIntVec | KWordVec   (* size_t, long, std::vector<int>, std::vector<std::string> *)
 | KTuple (n : nat)               (* cvm::rvector (3), cvm::quaternion (4), colvarvalue of type vector (n) *)
 | KReq (k : kind).               (* the same keyword looked up with parse_required *)
 
@@ -577,7 +595,7 @@ Definition is_required (k : kind) : bool := match k with KReq _ => true | _ => f
 Inductive value :=
 | VNotGiven
 | VReal (d : dec) | VInt (z : Z) | VBool (b : bool) | VString (s : list Z)
-| VReals (l : list dec) | VBlocks (l : list (list Z)) | VTuple (l : list dec)
+| VReals (l : list dec) | VBlocks (l : list (list Z)) | VTuple (l : list dec) | VInts (l : list Z) | VWords (l : list (list Z))
 | VBad.                                           (* an error was raised for this keyword *)
 
 Record pstate := { ps_allowed : list (list Z); ps_regs : list kl_reg; ps_err : bool; ps_oof : bool;
@@ -614,6 +632,15 @@ Definition get_keyval (strict : bool) (conf : list Z) (st : pstate) (kk : list Z
         | KRealVecN n => match (if strict then vector_fixed extract_real n data
                                 else vector_fixed_lenient extract_real n data)
                          with VAccept l => (VReals l, false) | VReject => (VBad, true) end
+        | KLong => match (if strict then scalar_value extract_long data else scalar_value_lenient extract_long data)
+                   with SAccept z => (VInt z, false) | SReject => (VBad, true) end
+        | KSize => if strict && memb 45 data then (VBad, true)     (* unsigned: a minus sign is refused *)
+                   else match (if strict then scalar_value extract_size data else scalar_value_lenient extract_size_pinned data)
+                        with SAccept z => (VInt z, false) | SReject => (VBad, true) end
+        | KIntVec => match (if strict then vector_dyn extract_int data else vector_dyn_lenient extract_int data)
+                     with VAccept l => (VInts l, false) | VReject => (VBad, true) end
+        | KWordVec => match (if strict then vector_dyn extract_word data else vector_dyn_lenient extract_word data)
+                      with VAccept l => (VWords l, false) | VReject => (VBad, true) end
         | KTuple n => match (if strict then scalar_value (extract_tuple n) data else scalar_value_lenient (extract_tuple n) data)
                       with SAccept l => (VTuple l, false) | SReject => (VBad, true) end
         | KBlock => (VBad, true)
@@ -774,4 +801,112 @@ Fixpoint lookup_seq (st : mstate) (calls : list (list Z * list Z * nat)) : mstat
     let st' := {| ms_allowed := ms_allowed st ++ [to_lower key];
                   ms_regs := ms_regs st ++ (match r with KL_found _ _ _ reg => [reg] | _ => [] end) |} in
     let '(st2, rs) := lookup_seq st' rest in (st2, r :: rs)
+  end.
+
+(* ---------------------------------------------------------------- index files (colvarmodule::read_index_file) *)
+
+(* `while ((is >> atom_number) && (atom_number > 0))`: the numbers of a group and the text after the last good one *)
+Fixpoint index_numbers (fuel : nat) (l : list Z) : list Z * list Z :=
+  match fuel with
+  | O => ([], l)
+  | S f =>
+    match skip_space l with
+    | [] => ([], [])
+    | c :: t => match extract_int (c :: t) with
+                | ExtOk v rest => if 0 <? v then let '(vs, r) := index_numbers f rest in (v :: vs, r) else ([], l)
+                | ExtFail => ([], l)
+                end
+    end
+  end.
+
+Fixpoint assoc_find (name : list Z) (gs : list (list Z * list Z)) : option (list Z) :=
+  match gs with
+  | [] => None
+  | (n, v) :: r => if list_eqb n name then Some v else assoc_find name r
+  end.
+
+Fixpoint int_list_eqb (a b : list Z) : bool :=
+  match a, b with
+  | [], [] => true
+  | x :: a', y :: b' => (x =? y) && int_list_eqb a' b'
+  | _, _ => false
+  end.
+
+Inductive index_result := IndexOk (groups : list (list Z * list Z)) | IndexError | IndexOutOfFuel.
+
+(* one group per iteration: '[' name ']' numbers; then the next word decides: none -> done; begins with '[' -> next
+   group; anything else -> error (strict, after the repair) or silent end of the reading (pinned) *)
+Fixpoint index_loop (strict : bool) (fuel : nat) (l : list Z) (gs : list (list Z * list Z)) : index_result :=
+  match fuel with
+  | O => IndexOutOfFuel
+  | S f =>
+    match expect_char 91 l with
+    | None => IndexError
+    | Some l1 =>
+      match extract_word (skip_space l1) with
+      | ExtFail => IndexError
+      | ExtOk name l2 =>
+        match expect_char 93 l2 with
+        | None => IndexError
+        | Some l3 =>
+          let '(nums, rest) := index_numbers (S (length l3)) l3 in
+          match (match assoc_find name gs with
+                 | Some old => if int_list_eqb old nums then Some gs else None      (* redefinition with other atoms *)
+                 | None => Some (gs ++ [(name, nums)])
+                 end) with
+          | None => IndexError
+          | Some gs' =>
+            match skip_space rest with
+            | [] => IndexOk gs'
+            | c :: t => if c =? 91 then index_loop strict f rest gs'
+                        else if strict then IndexError else IndexOk gs'
+            end
+          end
+        end
+      end
+    end
+  end.
+
+Definition parse_index (strict : bool) (text : list Z) : index_result :=
+  index_loop strict (S (length text)) text [].
+
+(* ---------------------------------------------------------------- parse modes and key_already_set *)
+
+(* _get_keyval_scalar_<double> called several times for the SAME keyword on one parser object (different texts and
+   parse modes): key_set_modes[key] makes the outcome of a call depend on the earlier ones.
+   req = parse_required, ovr = parse_override (parse_normal and parse_deprecated contain it; the echo and
+   deprecation-warning bits only write to the log). *)
+Inductive kv_value := KvInit | KvDefault | KvUser (d : dec).
+Record kv_state := { kv_set : bool; kv_val : kv_value }.
+Record kv_out := { ko_found : bool; ko_err : bool; ko_val : kv_value }.
+
+Definition kv_call (st : kv_state) (req ovr : bool) (conf key : list Z) : kv_state * kv_out :=
+  let r := key_string_values conf key in
+  let multi := (1 <? ksv_count r)%nat in
+  match ksv_data r with
+  | _ :: _ =>
+    (* a value text: parsed; mark_key_set_user on success only *)
+    match scalar_value extract_real (ksv_data r) with
+    | SAccept d => ({| kv_set := true; kv_val := KvUser d |},
+                    {| ko_found := true; ko_err := ksv_err r || multi; ko_val := KvUser d |})
+    | SReject => (* error; the destination gets the default, the key is not marked *)
+                 ({| kv_set := kv_set st; kv_val := KvDefault |},
+                  {| ko_found := true; ko_err := true; ko_val := KvDefault |})
+    end
+  | [] =>
+    if ksv_found r then
+      (* keyword without a value: error for a number; the destination gets the default, the key is not marked *)
+      ({| kv_set := kv_set st; kv_val := KvDefault |}, {| ko_found := true; ko_err := true; ko_val := KvDefault |})
+    else if req then
+      (* error_key_required: silent if the key was set before on this object *)
+      (st, {| ko_found := false; ko_err := ksv_err r || negb (kv_set st); ko_val := kv_val st |})
+    else if ovr || negb (kv_set st) then
+      ({| kv_set := true; kv_val := KvDefault |}, {| ko_found := false; ko_err := ksv_err r; ko_val := KvDefault |})
+    else (st, {| ko_found := false; ko_err := ksv_err r; ko_val := kv_val st |})
+  end.
+
+Fixpoint kv_seq (st : kv_state) (key : list Z) (calls : list (bool * bool * list Z)) : list kv_out :=
+  match calls with
+  | [] => []
+  | (req, ovr, conf) :: rest => let '(st', o) := kv_call st req ovr conf key in o :: kv_seq st' key rest
   end.
